@@ -128,6 +128,9 @@ def c01(run):
     # words around letters whose case mapping changes their length; each alone, as an operand, and as the last line
     for t in texts.sized_tokens(run.tier == 'quick'):
         cases += [(t, 'sized-token'), ('say ' + t + '\n', 'sized-token'), ('say 1\n' + t, 'sized-token')]
+    # three characters of every Unicode general category, in every position of a token
+    for t in texts.category_tokens():
+        cases += [(t, 'category'), ('say ' + t + '\n', 'category'), ('say 1\n' + t, 'category')]
     # one thing repeated N times (N = powers of two +-1, 1000): paragraphs, statements, arguments, operands, nesting, ...
     for k, nn, t in texts.scale_programs(run.tier == 'quick'):
         cases += [(t, 'scale:' + k), (t + 'put\n', 'scale:' + k)]
@@ -289,6 +292,10 @@ def c12(run):
     run.extra['small_scope'] = {'alphabet': len(LEX_ALPHABET), 'exhaustive_up_to_length': 3 if run.tier == 'quick' else 4}
     for t in texts.sized_tokens(run.tier == 'quick'):
         cases += [t, 'x ' + t + "'s y\n" + t]
+    cases += texts.category_tokens()
+    # every string of up to 6 (quick) / 7 (thorough) characters over the letters of the suffixes and the apostrophe
+    for L in range(1, (6 if run.tier == 'quick' else 7) + 1):
+        cases += [''.join(cs) for cs in itertools.product("a'sre", repeat=L)]
     cases += [t for _, _, t in texts.scale_programs(run.tier == 'quick')]
     run.rule = ('every string up to length 3 (quick) / 4 (thorough) over a %d-character alphabet (letters of the suffixes and of a '
                 'keyword, digits, quote, parentheses, apostrophe, period, comma, hyphen, symbols, blanks incl. CR/TAB/NBSP, line '
@@ -503,7 +510,7 @@ def c13(run):
         run.case(('first-line', t), True, kind='odd-first-line')
     # tokens of every class and byte length as the faulty line (whether each IS a fault is the model's call; the line must
     # agree), and a fault after one construct repeated N times (model-free: the line is the number of line breaks + 1)
-    st = ['say 1\n\n' + t + '\nsay 2\n' for t in texts.sized_tokens(run.tier == 'quick')]
+    st = ['say 1\n\n' + t + '\nsay 2\n' for t in texts.sized_tokens(run.tier == 'quick') + texts.category_tokens()]
     sc = [(k, t + 'put\n') for k, _, t in texts.scale_programs(run.tier == 'quick')]
     sreqs = ['parse ' + hx(t) for t in st] + ['parse ' + hx(t) for _, t in sc]
     sm, sim = run.tie(sreqs, proj=lambda r: ('err ' + r.split(' ')[2]) if r.startswith('err') else r.split(' ')[0], functional=True,
